@@ -371,6 +371,21 @@ def apply_recipe(body, recipe, fired):
 
     if recipe.get('strip_comments', True):
         body = strip_comments(body)
+    # R13: declared cuts - a region of the body that is outside the verifier's reach is dropped and replaced by the
+    # given text (a ghost model of its effect on the locals that survive); reported with the number of characters cut
+    for cut in recipe.get('cuts') or []:
+        mask = code_mask(body)
+        ms = [m for m in re.finditer(cut[0], body) if mask[m.start()]]
+        if len(ms) != 1:
+            raise ExtractError('cut start %r matches %d times' % (cut[0], len(ms)))
+        m2 = re.compile(cut[1]).search(body, ms[0].end())
+        while m2 and not mask[m2.start()]:
+            m2 = re.compile(cut[1]).search(body, m2.end())
+        if not m2:
+            raise ExtractError('cut end %r not found' % cut[1])
+        dropped = body[ms[0].start():m2.start()]
+        body = body[:ms[0].start()] + (cut[2] if len(cut) > 2 else '') + '\n' + body[m2.start():]
+        fired.append({'rule': 'R13-cut:' + cut[0], 'count': 1, 'dropped_chars': len(dropped), 'dropped_sha256': hashlib.sha256(dropped.encode()).hexdigest()[:16]})
     # R11: brace the single-statement body of the listed loops (semantics preserving; needed so that ghost
     # statements can be inserted into the body)
     for k in sorted(recipe.get('brace_loops') or [], reverse=True):
